@@ -176,6 +176,29 @@ fn same_verdict(a: &Verdict, b: &Verdict) -> bool {
         && (a.separate_where.is_empty() || b.separate_where.is_empty() || a.separate_where == b.separate_where)
 }
 
+fn with_plain_file(files: &Files) -> Files {
+    let mut out = files.clone();
+    // the first package directory (not the root) one of whose files imports something
+    let mut dirs: Vec<String> = Vec::new();
+    for (path, bytes) in files {
+        if let Some(i) = path.rfind('/') {
+            let text = String::from_utf8_lossy(bytes);
+            if text.lines().any(|l| l.trim_start().starts_with("import ")) && !path[..i].contains('/') {
+                dirs.push(path[..i].to_string());
+            }
+        }
+    }
+    dirs.sort();
+    dirs.dedup();
+    if let Some(dir) = dirs.first() {
+        let name = format!("{dir}/zz_plain.gom");
+        if !out.contains_key(&name) {
+            out.insert(name, format!("package {dir}\n\nfn zz_plain_{}() -> int32 {{\n    1\n}}\n", dir.to_lowercase()).into_bytes());
+        }
+    }
+    out
+}
+
 struct CaseResult {
     violations: Vec<Violation>,
     procs: u64,
@@ -194,6 +217,7 @@ fn check_case(sb: &Sandbox, opts: &Opts, idx: usize, orders: usize, forced: Opti
     let proj = generate(&mut p, &cfg);
     let kind = ILLEGAL_KINDS[idx % ILLEGAL_KINDS.len()].clone();
     let mut r = CaseResult { violations: Vec::new(), procs: 0, fingerprints: Vec::new(), kind: format!("{kind:?}"), sample: None, applicable: false, digest: String::new(), store_configs: 0 };
+    let forced_given = forced.is_some();
     let (twin, bad, desc, kind) = match forced {
         Some(f) => f,
         None => match inject(&proj, &kind, &mut p) {
@@ -202,6 +226,10 @@ fn check_case(sb: &Sandbox, opts: &Opts, idx: usize, orders: usize, forced: Opti
         },
     };
     r.applicable = true;
+    // imports are per file: one package of every project gets one more file that imports nothing
+    // (and needs nothing), so the files of that package have different import sets -- legal, and
+    // no business of the other files
+    let (twin, bad) = if forced_given { (twin, bad) } else { (with_plain_file(&twin), with_plain_file(&bad)) };
     let mk = |class: &str, pipeline: &str, what: String| Violation {
         property: PROP.into(),
         class: class.to_string(),
